@@ -142,7 +142,11 @@ pub fn probe(args: &[String]) {
 //           | 'F' <form>*                            a list of forms
 //   form   := 'i' <name> '.'                         (include name.clib)   name `*…*` = pseudo-file
 //           | 'b'|'h'|'s' <name> '.'                 (embed-file C bin|hex|sexp name)
-//           | 'm' <form>* 'e'                        a helper whose body holds a nested (mod …)
+//           | 'm' <form>* 'e'                        a helper whose body holds a nested (mod …); where in the
+//                                                    body (call argument, let binding, lambda body) and whether
+//                                                    the main expression uses the helper varies with the position
+//           | 'g' <form>* 'e'                        (impl side only) an old-style defmacro whose expansion is a
+//                                                    (mod …) with these forms, used by the main expression
 //           | 'o'                                    some other helper form
 // ------------------------------------------------------------------------------------------
 
@@ -151,6 +155,7 @@ enum Form {
     Include(String),
     Embed(char, String),
     Nested(Vec<Form>),
+    Generated(Vec<Form>),
     Other,
 }
 
@@ -172,14 +177,14 @@ fn parse_forms(s: &[u8], pos: &mut usize) -> Option<Vec<Form>> {
                 *pos += 1;
                 out.push(if c == 'i' { Form::Include(name) } else { Form::Embed(c, name) });
             }
-            'm' => {
+            'm' | 'g' => {
                 *pos += 1;
                 let inner = parse_forms(s, pos)?;
                 if *pos >= s.len() || s[*pos] != b'e' {
                     return None;
                 }
                 *pos += 1;
-                out.push(Form::Nested(inner));
+                out.push(if c == 'm' { Form::Nested(inner) } else { Form::Generated(inner) });
             }
             'o' => {
                 *pos += 1;
@@ -201,10 +206,12 @@ fn file_name(n: &str) -> String {
 
 struct Gen {
     ctr: usize,
+    /// calls of top-level helpers to put into the program's main expression
+    calls: Vec<String>,
 }
 
 impl Gen {
-    fn forms(&mut self, fs: &[Form], out: &mut String) {
+    fn forms(&mut self, fs: &[Form], out: &mut String, top: bool) {
         for f in fs {
             self.ctr += 1;
             let k = self.ctr;
@@ -228,8 +235,26 @@ impl Gen {
                 }
                 Form::Nested(inner) => {
                     let mut body = String::new();
-                    self.forms(inner, &mut body);
-                    out.push_str(&format!(" (defun nest{k} (X) (a (mod (Y){body} (+ Y {k})) (c X ())))"));
+                    self.forms(inner, &mut body, false);
+                    let m = format!("(mod (Y){body} (+ Y {k}))");
+                    // the syntactic positions collect_include_forms_bodyform has to look into
+                    match k % 3 {
+                        0 => out.push_str(&format!(" (defun nest{k} (X) (a {m} (c X ())))")),
+                        1 => out.push_str(&format!(" (defun nest{k} (X) (let ((P {m}) (Q {k})) (a P (c X Q))))")),
+                        _ => out.push_str(&format!(" (defun nest{k} (X) (lambda ((& X) Z) (a {m} (c Z X))))")),
+                    }
+                    // every other one is used by the main expression (the rest is dead code)
+                    if top && (k / 3) % 2 == 0 {
+                        self.calls.push(format!("(nest{k} A)"));
+                    }
+                }
+                Form::Generated(inner) => {
+                    let mut body = String::new();
+                    self.forms(inner, &mut body, false);
+                    out.push_str(&format!(" (defmacro mk{k} () (qq (mod (Y){body} (+ Y {k}))))"));
+                    if top {
+                        self.calls.push(format!("(a (mk{k}) (c A ()))"));
+                    }
                 }
                 Form::Other => out.push_str(&format!(" (defun fun{k} (X) (+ X {k}))")),
             }
@@ -294,12 +319,13 @@ fn case_line(l: &str) -> String {
             if pos != rb.len() {
                 return "bad-input".to_string();
             }
-            let mut g = Gen { ctr: d * 1000 + name.len() * 37 };
+            let mut g = Gen { ctr: d * 1000 + name.len() * 37, calls: vec![] };
             let mut body = String::new();
-            g.forms(&forms, &mut body);
+            g.forms(&forms, &mut body, name == "main");
             if name == "main" {
                 let sig = if sigil.is_empty() { String::new() } else { format!(" (include {sigil})") };
-                main_text = Some(format!("(mod (A){sig}{body} (+ A 1))"));
+                let calls: String = g.calls.iter().map(|c| format!(" {c}")).collect();
+                main_text = Some(format!("(mod (A){sig}{body} (+ A 1{calls}))"));
             } else {
                 fs::write(dir.join(format!("{name}.clib")), format!("({body}\n)")).unwrap();
             }
